@@ -203,6 +203,9 @@ func capitalizeSegments(s string) string {
 	return strings.Join(parts, "_")
 }
 
+var coreNames = map[string]bool{"dq-both": true, "dq-whole": true, "bt-both": true, "sq-whole": true, "dollar-whole": true, "comment-before-dot": true,
+	"comment-before-name": true, "nbsp-before-dot": true, "dq-dotdot-table": true, "ident-lookalike-db": true, "str-lookalike": true, "only": true}
+
 func buildFillers(catalog []string) []filler {
 	var f []filler
 	add := func(key, family, text, base string, core bool) {
@@ -232,7 +235,7 @@ func buildFillers(catalog []string) []filler {
 		{"alias-as-authorised", "db2.secrets AS cpu"},
 	}
 	for _, n := range names {
-		add("name:"+n.k, "name:"+n.k, n.t, "name:qualified", !strings.HasPrefix(n.k, "bt-") || n.k == "bt-both")
+		add("name:"+n.k, "name:"+n.k, n.t, "name:qualified", coreNames[n.k])
 	}
 	f = append(f, filler{Key: "name:dq-both-glued", Family: "name:glued", Text: `"db2"."secrets"`, Glue: true, BaseK: "name:dq-both", Core: true})
 
@@ -420,13 +423,13 @@ func buildDecoys() []decoy {
 		{Name: "none", Core: true},
 		// quote characters inside comments
 		{Name: "block-comment-single-quote", C: "/* ' */ ", Core: true},
-		{Name: "block-comment-double-quote", C: `/* " */ `, Core: true},
+		{Name: "block-comment-double-quote", C: `/* " */ `},
 		{Name: "block-comment-backtick", C: "/* ` */ "},
 		{Name: "block-comment-dollar-quote", C: "/* $$ */ ", Core: true},
 		{Name: "line-comment-single-quote", C: "-- '\n", Core: true},
 		{Name: "line-comment-double-quote", C: "-- \"\n"},
 		{Name: "nested-comment-quote-inside", C: "/* /* ' */ */ ", Core: true},
-		{Name: "nested-comment-quote-after-inner", C: "/* /* */ ' */ ", Core: true},
+		{Name: "nested-comment-quote-after-inner", C: "/* /* */ ' */ "},
 		{Name: "nested-comment-compact", C: "/*/**/*/ "},
 		{Name: "comment-from-authorised", C: "/* FROM db1.cpu */ "},
 		{Name: "comment-read_parquet", C: "/* read_parquet */ ", Core: true},
@@ -437,28 +440,28 @@ func buildDecoys() []decoy {
 		{Name: "trailing-semicolon-comment", Post: "; -- x"},
 		// comment markers and other structure inside string literals
 		{Name: "literal-line-comment-marker", I: "'--' AS d, ", Core: true},
-		{Name: "literal-block-comment-open", I: "'/*' AS d, ", Core: true},
+		{Name: "literal-block-comment-open", I: "'/*' AS d, "},
 		{Name: "literal-block-comment-close", I: "'*/' AS d, "},
 		{Name: "literal-block-comment-pair", I: "'/*' AS d, ", Post: " /* '*/' */"},
 		{Name: "literal-semicolon", I: "';' AS d, "},
 		{Name: "literal-from-authorised", I: "'FROM db1.cpu' AS d, "},
 		{Name: "literal-read_parquet", I: "'read_parquet' AS d, ", Core: true},
 		{Name: "alias-read_parquet", I: "1 AS read_parquet, "},
-		{Name: "literal-doubled-quote", I: "'''' AS d, ", Core: true},
+		{Name: "literal-doubled-quote", I: "'''' AS d, "},
 		// backslashes before quotes
 		{Name: "literal-backslash", I: `'\' AS d, `, Core: true},
 		{Name: "literal-backslash-then-comment-quote", I: `'a\' AS d, `, Post: " --'", Core: true, Parts: []string{"literal-backslash", "trailing-line-comment-quote"}},
-		{Name: "estring-escaped-quote", I: `E'\'' AS d, `, Core: true},
+		{Name: "estring-escaped-quote", I: `E'\'' AS d, `},
 		{Name: "estring-escaped-backslash", I: `E'\\' AS d, `},
 		{Name: "estring-after-identifier-byte", I: `1E'x' AS d, `},
 		// dollar quotes
-		{Name: "dollar-quoted-single-quote", I: "$$'$$ AS d, ", Core: true},
+		{Name: "dollar-quoted-single-quote", I: "$$'$$ AS d, "},
 		{Name: "dollar-tagged-single-quote", I: "$x$'$x$ AS d, "},
 		{Name: "dollar-in-identifier", I: "1 AS a$$b, ", Post: " --$$"},
 		{Name: "literal-dollar-param", I: "'$1' AS d, "},
 		// placeholder look-alikes
-		{Name: "literal-str-lookalike", I: "'__STR_0__' AS d, ", Core: true},
-		{Name: "alias-str-lookalike", I: "1 AS __STR_0__, ", Core: true},
+		{Name: "literal-str-lookalike", I: "'__STR_0__' AS d, "},
+		{Name: "alias-str-lookalike", I: "1 AS __STR_0__, "},
 		{Name: "alias-ident-lookalike", I: "1 AS __IDENT_0__, ", Core: true},
 		{Name: "quoted-ident-lookalike", I: `1 AS "__IDENT_0__", `},
 		{Name: "alias-frommask-lookalike", I: "1 AS __FROM_MASK_0__, "},
@@ -537,23 +540,25 @@ func render(sk *skeleton, f *filler, d *decoy, hdr string) (request, bool) {
 
 // ---- the SHOW / listing product (its own small grammar) ----------------------------------------------------
 
-func buildListing() []request {
+func buildListing(quick bool) []request {
 	var out []request
-	dbs := []string{"db1", "db2", `"db2"`, `'db2'`, "`db2`", `"db1"`, "DB2", "db1.db2", "db2.secrets", `"db1--db2"`, `"db2"--x`, "db2/**/", "/**/db2",
-		"db2 --x", `"db1/../db2"`, "..", "*", `"*"`, "db2 ", " db2", `'db1' 'db2'`, "db1, db2", `$$db2$$`, `E'db2'`, "__IDENT_0__", `"db2" "db1"`}
-	verbs := []string{"SHOW DATABASES", "SHOW TABLES", "SHOW MEASUREMENTS", "SHOW ALL TABLES", "SHOW DATABASES", "SHOW TABLES", "show databases", "SHOW  DATABASES ;",
+	dbs := []string{"db1", "db2", `"db2"`, `'db2'`, "`db2`", "DB2", "db1.db2", `"db1--db2"`, `"db2"--x`, "db2/**/", "/**/db2",
+		`"db1/../db2"`, "..", "*", "db2\u00a0", `'db1' 'db2'`, "db1, db2", `$$db2$$`, `E'db2'`, "__IDENT_0__", `"db2" "db1"`}
+	stmts := []string{"SHOW DATABASES", "SHOW TABLES", "SHOW MEASUREMENTS", "SHOW ALL TABLES", "show databases", "SHOW  DATABASES ;", "SHOW\u00a0DATABASES",
 		"SHOW SCHEMAS", "SHOW TABLES FROM", "DESCRIBE"}
-	var stmts []string
-	for _, v := range verbs {
-		stmts = append(stmts, v)
+	fromForms := []string{"SHOW TABLES FROM ", "SHOW MEASUREMENTS FROM ", "SHOW TABLES IN ", "SHOW\nTABLES\nFROM\n", "SHOW ALL TABLES FROM ", "SHOW TABLES FROM/**/"}
+	wraps := []struct{ pre, post string }{{"", ""}, {"/* x */ ", ""}, {"-- x\n", ""}, {"/* ' */ ", ""}, {"", ";"}, {"", " -- x"}, {"", " /* x"}, {"/*/**/*/", ""}, {"", "; SELECT 1"}, {"SELECT 1; ", ""}, {"\u00a0", ""}, {"(", ")"}}
+	eps := []string{"/api/v1/query", "/api/v1/query/estimate", "/api/v1/query/msgpack"}
+	if quick {
+		fromForms = fromForms[:2]
+		wraps = wraps[:6]
+		eps = eps[:2]
 	}
-	for _, v := range []string{"SHOW TABLES FROM ", "SHOW MEASUREMENTS FROM ", "SHOW TABLES IN ", "SHOW\nTABLES\nFROM\n", "SHOW TABLES FROM ", "SHOW ALL TABLES FROM ", "SHOW TABLES FROM/**/"} {
+	for _, v := range fromForms {
 		for _, x := range dbs {
 			stmts = append(stmts, v+x)
 		}
 	}
-	wraps := []struct{ pre, post string }{{"", ""}, {"/* x */ ", ""}, {"-- x\n", ""}, {"/* ' */ ", ""}, {"", ";"}, {"", " -- x"}, {"", " /* x"}, {"/*/**/*/", ""}, {"", "; SELECT 1"}, {"SELECT 1; ", ""}, {" ", ""}, {"(", ")"}}
-	eps := []string{"/api/v1/query", "/api/v1/query/estimate", "/api/v1/query/arrow", "/api/v1/query/msgpack"}
 	for _, st := range stmts {
 		for _, w := range wraps {
 			for _, h := range headers {
